@@ -49,8 +49,9 @@ CHECKS = {
     ),
     "C12": dict(
         level="model_checking",
-        mc=[dict(module="MC_Bip39", workers=8)],
-        gen=[dict(module="Gen_C12", slices=dict(quick=4, thorough=8))],
+        mc=[dict(module="MC_Bip39", workers=8)] + [dict(module="MC_Vanity", cfg="MC_Vanity_N%d.cfg" % n, tag="MC_Vanity_N%d" % n, workers=16) for n in (0, 1, 2, 3)],
+        gen=[dict(module="Gen_C12", slices=dict(quick=8, thorough=8)),
+             dict(module="Gen_C12cli", slices=dict(quick=8, thorough=8))],
         rule="Gen_C12: generation through the interposed getentropy: 960 one-hot feeds (every entropy bit of every "
              "size), pattern/PRNG feeds, every requested length 0..40 with a working and a refusing source (refusal "
              "at request 0 and at 0..3), real OS entropy with logged grants",
@@ -179,6 +180,33 @@ CHECKS = {
              "(quick) / 0..4096 (thorough), PRNG re-layouts of the hex text, malformed and non-UTF-8 input, file and stdin",
         assumptions=["exit status / stdout of the binary built from /repo are what a user observes"],
     ),
+    "C16": dict(
+        level="model_checking",
+        mc=[dict(module="MC_Wallet", workers=16)],
+        gen=[dict(module="Gen_C16", slices=dict(quick=16, thorough=16))],
+        rule="MC_Wallet (see C11): sign/hash agreement, selectors exclusive, flag/environment equivalence on the stage "
+             "machine; Gen_C16: PRNG sample over 13 command forms (cycled) x 4 mnemonics x 5 passphrases x 11 selectors "
+             "x flag/env per option x file/stdin; the exhaustive 54-point option source lattice on address/export/"
+             "public-key; sessions hash X - address - sign X whose real outputs must agree (recover(sign, hash) = "
+             "address); missing/invalid mnemonics and unusable selectors",
+        assumptions=["exit status / stdout of the binary built from /repo are what a user observes"],
+    ),
+    "C18": dict(
+        level="model_checking",
+        mc=[dict(module="MC_Vanity", cfg="MC_Vanity_N%d.cfg" % n, tag="MC_Vanity_N%d" % n, workers=16) for n in (0, 1, 2, 3)]
+           + [dict(module="MC_Prefix", workers=8)],
+        gen=[dict(module="Gen_C18", slices=dict(quick=8, thorough=8), profiles=dict(quick=["dev"], thorough=["dev", "release"]))],
+        rule="MC_Vanity: all interleavings of main + N in 0..3 workers + channel + granting/refusing entropy environment "
+             "(3 abstract candidates, every matching subset, <= 4 (quick) / 5 (thorough) requests): a printed phrase is a "
+             "granted match, the judge's observer fold admits every behaviour (no false alarm), pending messages lead "
+             "to exit (liveness under weak fairness); MC_Prefix: prefix grammar over all strings <= 4 over "
+             "{0..9 a f A F g x}; Gen_C18: real searches under the entropy shim: 22 single digits x -j {0,1,2,16}, "
+             "two-digit (three-digit thorough) prefixes in lower/upper/mixed case, vanity password/index/path/length "
+             "variants, repetitions, non-hex prefixes and unusable selectors",
+        assumptions=["the LD_PRELOAD shim logs grants in an order consistent with what each thread observed (sequence "
+                     "number and line written under one mutex after the bytes are in the caller's buffer)",
+                     "schedules of the real binary are sampled; exhaustive interleaving results are for the model"],
+    ),
 }
 
 # Text for MANIFEST.json (tools/mkmanifest.py)
@@ -283,6 +311,21 @@ MANIFEST_TEXT = {
              "validated by TLC.",
         design_ref="6 (C19)", note=_TRUST,
         technique="TLC model check + trace validation of CLI sessions"),
+    "C16": dict(
+        text="Every command form is a path through the TLA+ CLI pipeline (Wallet.tla): option sources, account "
+             "resolution (BIP-39 seed, BIP-32 path), input, digest, signature, print.  TLC model-checks the stage "
+             "machine and validates exit status and stdout of the real binary for sampled commands, the full option "
+             "source lattice and multi-command sessions whose outputs must be mutually consistent.",
+        design_ref="6 (C16)", note=_TRUST,
+        technique="TLC model check of the CLI stage machine + trace validation of real-binary runs and sessions"),
+    "C18": dict(
+        text="The vanity search is a TLA+ model (Vanity.tla: main, workers, channel, entropy environment) whose "
+             "interleavings TLC explores exhaustively; the same observer operators fold the shim's ordered entropy log of "
+             "each real run, and TLC validates that the printed phrase is a current, granted candidate of some thread "
+             "whose selected account's address has the requested nibbles, that every request is one the model's worker "
+             "would make, and that bad prefixes are refused.",
+        design_ref="6 (C18)", note=_TRUST,
+        technique="TLC exhaustive interleaving model check + trace validation of real concurrent runs via an entropy shim"),
     "C07": dict(
         text="TLC proves on the specification (MC_Rlp, exhaustive over a bounded structurally complete universe) that "
              "the strict decoder inverts the encoder and rejects every non-canonical variant; the implementation is "
